@@ -36,15 +36,24 @@ RULE = ("(a) exhaustive: every boolean mask of every shape with H*W <= 6 (quick)
         "caller's inputs (mask, map, sub-values, grid values, arrays given to the util functions) must be unchanged and every earlier "
         "result must still hold what it held when returned. (e) value ranges: functions scaled by 2^-40..2^30 (with scaled absolute "
         "tolerances), functions vanishing at SOME pixel centres, functions whose sub-size-2 mean is exactly 0 in a row of pixels "
-        "with a positive centre value. distinct = distinct JSON input.")
+        "with a positive centre value. (f) input KINDS, in every stream: user functions that return INTEGER / BOOL arrays (indicator p > c, "
+        "count of thresholds passed, sign, floor of a polynomial p; boundaries directed through pixel centres / corners: half- and quarter-covered "
+        "pixels) as bool / int64 / int32 / int16 / int8 / uint8 / float32 / float16 / float64 arrays, Python lists or ArrayIrregular objects, and "
+        "real-valued functions as float32 arrays (where exact), lists, ArrayIrregular; sub-values for binned_array_2d_from in the same dtypes / "
+        "containers (the mean of integer sub-values is compared with the exact rational mean); integer-typed pixel scales and origins; masks given "
+        "as int arrays / lists of lists; sub-size maps as int32 arrays / lists; instances of user SUBCLASSES of Grid2D, OverSamplingUniform, "
+        "OverSamplingIterate, Grid2DOverSampled. After every history also: every array a user function returned and the attributes of every "
+        "OverSampling* configuration object / OverSamplerIterate must be unchanged. Integer-valued functions on non-dyadic geometry are skipped "
+        "(and counted) when a sub-pixel centre lies within 1e-6 of a jump. distinct = distinct JSON input.")
 EXHAUSTIVE = {
     "quick": "all boolean masks of all shapes with H*W <= 6 (394 masks): over-sampled grid at uniform sub-size 1 and 2 (and 4 for every third mask); "
              "slim_for_sub_slim and binning of distinct integers at one of these sub-sizes per mask (rotating)",
     "thorough": "all boolean masks of all shapes with H*W <= 8 x uniform sub-size {1,2,4}",
 }
 TRUSTED = ["state kept by OverSamplerIterate / OverSampling* configuration objects / GridsDataset between calls is NOT modelled (the model is the pure function): tied by the shared-object sequences only",
-           "correspondence harness harness/c09.py (the user function is the SAME coefficient list on both sides: numpy evaluation "
-           "in the implementation, eval_ufun at QOps in the model)",
+           "correspondence harness harness/c09.py (the user function is the SAME coefficient list (+ post-composition indicator / count / sign / floor) "
+           "on both sides: numpy evaluation in the implementation, eval_ufun at QOps in the model; the dtype / container the function returns its "
+           "values in is not part of the mathematical function and does not appear in the model)",
            "Array2D slim/native conversion modelled structurally (Model.C09.to_native / to_slim; subject of C01)",
            "numpy float64 semantics of x / 0.0 = inf in threshold_mask_via_arrays_jit_from (numba absent), modelled by an explicit branch"]
 ASSUMPTIONS = ["the sub-size map and the mask are not edited in place after a cached property of the over sampler has been read (cached_property by design)",
@@ -433,8 +442,9 @@ def gen_inputs(tier, rng):
             e = rng.choice([-40, -30, -20, 20, 30]); f = scaled(f, e)
             if rel is not None: rel = fs(F(rel) * F(2) ** e)
         via = rng.choice(["class", "class", "decor", "dataset", "subclass"])
-        if via == "class": yield {"op": "iter", "m": m, "ps": ps, "og": og, "thr": thr, "rel": rel, "steps": steps, "f": f}
-        else: yield {"op": "decor", "m": m, "ps": ps, "og": og, "os": {"kind": "iter", "thr": thr, "rel": rel, "steps": steps, "sub": via == "subclass"}, "f": f,
+        ik = rng.random() < 0.2
+        if via == "class": yield {"op": "iter", "m": m, "ps": ps, "og": og, "thr": thr, "rel": rel, "steps": steps, "f": f, "ikind": ik, "gint": rng.random() < 0.2}
+        else: yield {"op": "decor", "m": m, "ps": ps, "og": og, "os": {"kind": "iter", "thr": thr, "rel": rel, "steps": steps, "sub": via == "subclass", "ikind": ik}, "f": f,
                      "via": {"decor": "from_mask", "dataset": "dataset", "subclass": "subclass"}[via], "gint": rng.random() < 0.2}
     # decisions exactly ON the boundary: f = c*y^2, a row of pixel centres at |y| = ps_y/4 => level_0/level_2 = 1/2 exactly
     # there (threshold 1/2 must ACCEPT: `<`, not `<=`); level_2 - level_0 = c*ps_y^2/16 at every pixel (absolute tolerance
@@ -734,15 +744,18 @@ class Env:
                                 lambda: OverSamplingUniform(sub_size=self.ssmap(os["ss"], bool(os.get("fl")), os.get("ssder"))))
         if os.get("default"):      # every argument left at its default: fractional accuracy 0.9999, schedule [2, 4, 8, 16]
             return self.ctx.get(["os", "iter-default"], lambda: OverSamplingIterate(), w_iter(0.9999, None, [2, 4, 8, 16]))
-        return self.ctx.get(["os", "iter", os["thr"], os["rel"], os["steps"], sub],
-                            lambda: OverSamplingIterate(fractional_accuracy=fl(os["thr"]), relative_accuracy=fl(os["rel"]), sub_steps=list(os["steps"])),
+        ik = bool(os.get("ikind"))      # ikind: the schedule is a tuple, integral thresholds are Python ints
+        if ik: fl = lambda t: None if t is None else (int(F(t)) if F(t).denominator == 1 else float(F(t)))
+        return self.ctx.get(["os", "iter", os["thr"], os["rel"], os["steps"], sub, ik],
+                            lambda: OverSamplingIterate(fractional_accuracy=fl(os["thr"]), relative_accuracy=fl(os["rel"]),
+                                                        sub_steps=tuple(os["steps"]) if ik else list(os["steps"])),
                             w_iter(fl(os["thr"]), fl(os["rel"]), os["steps"]))
     def grid(self, os, via):
         """the Grid2D a decorated method is called with"""
         from autoarray.dataset.grids import GridsDataset
         from autoarray.dataset.over_sampling import OverSamplingDataset
         aa = self.aa
-        oskey = [os.get(k) for k in ("kind", "s", "ss", "fl", "ssder", "thr", "rel", "steps", "default", "sub")]
+        oskey = [os.get(k) for k in ("kind", "s", "ss", "fl", "ssder", "thr", "rel", "steps", "default", "sub", "ikind")]
         def ctor():
             mask = self.mask(); osobj = self.os_obj(os)
             if via.startswith("dataset"):
@@ -881,9 +894,11 @@ def run_one(inp, ctx):
                 return {"coq": None, "out": None, "nontrivial": False, "kind": op + "-skipped-in-band", "skipped": True}
         if op == "iter":
             def func(obj, grid, *a, **k): g = np.array(grid); return fn(g[:, 0], g[:, 1])
-            smp = ctx.get(["ismp", env.mkey, os["thr"], os["rel"], os["steps"]],
+            ik = bool(inp.get("ikind"))
+            if ik: fl = lambda t: None if t is None else (int(F(t)) if F(t).denominator == 1 else float(F(t)))
+            smp = ctx.get(["ismp", env.mkey, os["thr"], os["rel"], os["steps"], ik],
                           lambda: OverSamplerIterate(mask=env.mask(), fractional_accuracy=fl(os["thr"]), relative_accuracy=fl(os["rel"]),
-                                                     sub_steps=list(os["steps"])),
+                                                     sub_steps=tuple(os["steps"]) if ik else list(os["steps"])),
                           lambda o: None if (o.fractional_accuracy, o.relative_accuracy, list(o.sub_steps)) == (fl(os["thr"]), fl(os["rel"]), list(os["steps"]))
                                     else "OverSamplerIterate attributes")
             res = call_res(lambda: smp.array_via_func_from(func, None))
